@@ -4,7 +4,7 @@ from __future__ import annotations
 import itertools
 import json
 
-from spverif.core.util import attempt, exc_sig, rand_bytes, rand_uint, rand_name
+from spverif.core.util import attempt, exc_sig, rand_bytes, rand_uint, rand_name, hist_len
 from spverif.ref import cfdp as R
 from . import _cfdp as C
 
@@ -242,7 +242,7 @@ def k_field_reuse(ctx, seed):
     va, vb = rand_uint(r, 8 * a), rand_uint(r, 8 * b)
     fa, fb = X.ByteFieldGenerator.from_int(a, va), X.ByteFieldGenerator.from_int(b, vb)
     trail = []
-    for rnd in range(r.randrange(2, 6)):
+    for rnd in range(hist_len(r, 2, 6)):
         if rnd:
             for which in ("a", "b"):
                 if r.random() < 0.7:
